@@ -2,6 +2,7 @@
 (the chain-rule factor f'(x) is the free symbol g); pure rule: eval(grad) = d/dx eval; mixed
 (parameter-shift) rule: CQ-eval(grad) = d/dx CQ-eval.  Diagram-level product rule on symbolic
 samples with several symbols occurring several times."""
+import itertools
 import numpy
 import sympy
 from sympy import I, Symbol, Function, Derivative, conjugate
@@ -14,6 +15,7 @@ from symrun.harness import Suite
 from symrun.interp import zx_matrix, mat_list
 
 x, y = sympy.symbols('x y', real=True)
+z = sympy.Symbol('z', real=True)
 g = Symbol('g', real=True)       # stands for f'(x)
 f = Function('f', real=True)(x)
 
@@ -208,6 +210,37 @@ def run(tier):
             for e in numpy.array(d.eval().array, dtype=object).flatten()]
     suite.identity('tensor.Diagram.jacobian.order', arr(jac), want, extra=(x, y), functions=['tensor.Diagram.jacobian'],
                    what='the jacobian stacks the gradients in the order of the variables')
+    # jacobians of tensors with a non-trivial domain: entry [input, k, output] is the derivative of entry [input, output]
+    # with respect to variables[k] (the new axis comes after the domain axes), for values and for diagrams
+    with suite.guard('jacobian with a domain', ['tensor.Tensor.jacobian', 'tensor.Diagram.jacobian']):
+        fb2 = tensor.Box('f', Dim(2), Dim(3), [x * y, x ** 2, y, x + y, sympy.sin(x), y ** 3])
+        gb2 = tensor.Box('g', Dim(3), Dim(3), [x, 0, 1, y, x * y, 0, 2, 1, y ** 2])
+        for nm, dg in (('box 2->3', fb2), ('diagram 2->3', fb2 >> gb2), ('diagram 2->2x3', tensor.Id(Dim(2)) @ v >> fb2.dagger().dagger() @ tensor.Id(Dim(2)) >> tensor.Swap(Dim(3), Dim(2)))):
+            ev = dg.eval()
+            base = numpy.array(ev.array, dtype=object).reshape(tuple(ev.dom) + tuple(ev.cod))
+            for vs in ([x, y], [y, x], [x, y, z]):
+                want_a = numpy.empty(tuple(ev.dom) + (len(vs),) + tuple(ev.cod), dtype=object)
+                for idx in itertools.product(*[range(n_) for n_ in tuple(ev.dom)]):
+                    for k, var in enumerate(vs):
+                        for odx in itertools.product(*[range(n_) for n_ in tuple(ev.cod)]):
+                            want_a[idx + (k,) + odx] = clean(sympy.diff(sympy.sympify(base[idx + odx]), var))
+                for route, jac in (('value', lambda: ev.jacobian(vs)), ('diagram', lambda: dg.jacobian(vs).eval())):
+                    j_ = jac()
+                    tag = '%s.jacobian%s[%s]' % (route, [str(q) for q in vs], nm)
+                    suite.fact(tag + '.type', (j_.dom, j_.cod) == (ev.dom, Dim(len(vs)) @ ev.cod), functions=['tensor.Tensor.jacobian'])
+                    suite.identity(tag, arr(j_), list(want_a.flatten()), extra=(x, y, z), functions=['tensor.Tensor.jacobian', 'tensor.Diagram.jacobian'],
+                                   what='the jacobian stacks the gradients in the order of the variables, after the domain axes')
+    # boxes whose data is a numpy array with two or more axes (a matrix of symbols) depend on their symbols
+    with suite.guard('grad of boxes with array-shaped data', ['cat.Box.free_symbols', 'tensor.Box.grad']):
+        m2 = tensor.Box('m', Dim(2), Dim(2), numpy.array([[x, 1], [y, x ** 2]], dtype=object))
+        m3 = tensor.Box('m3', Dim(2), Dim(2, 2), numpy.array([[[x, 1], [y, x ** 2]], [[x * y, 0], [1, x]]], dtype=object))
+        suite.fact('free_symbols[2-d array data]', m2.free_symbols == {x, y} and m3.free_symbols == {x, y}, functions=['cat.Box.free_symbols'],
+                   what='the symbols of a matrix-shaped payload are reported (got %r, %r)' % (m2.free_symbols, m3.free_symbols))
+        for nm, dg in (('v >> m >> v.dagger()', v >> m2 >> v.dagger()), ('m alone', m2), ('v >> m3', v >> m3)):
+            for var in (x, y):
+                suite.identity('tensor.grad[2-d array data][%s](%s)' % (nm, var), arr(total(dg.grad(var)), diff_arr(dg.eval(), var)), diff_arr(dg.eval(), var),
+                               extra=(x, y), functions=['tensor.Diagram.grad', 'tensor.Box.grad', 'cat.Box.free_symbols'],
+                               what='the gradient of a diagram with a box whose data is a 2-d numpy array of symbols')
     # circuits: several symbols occurring several times, affine and non-linear phases
     Id = circuit.Id
     circuits = {
